@@ -140,6 +140,10 @@ func c04Wire(c *ctx) {
 			return
 		}
 	}
+	if err := waitTLSServing("warmup.invalid", mixA); err != nil { // not a tcp route's name: the https side answers
+		c.R.Inconcl("%v", err)
+		return
+	}
 	time.Sleep(300 * time.Millisecond)
 	// one request on its own connection; returns the id of the upstream that answered
 	one := func(g *group) (int, error) {
